@@ -54,6 +54,14 @@ func (packet *Packet) ReadFrom(ctx context.Context, reader io.Reader, timeout ti
 
 	totalBytes += n
 
+	// A packet cannot be shorter than its header. The length of the
+	// body would wrap around and, once that many bytes had arrived,
+	// the loop below would spin on reads into an empty buffer - the
+	// total can never match the announced length.
+	if packet.Header.Length < PacketHeaderSize {
+		return totalBytes, fmt.Errorf("invalid packet header: length %d is smaller than the header", packet.Header.Length)
+	}
+
 	packet.Data = make([]byte, packet.Header.Length-PacketHeaderSize)
 
 	// The timeout will be refreshed (replaced) on every successful
